@@ -736,9 +736,14 @@ func (t *State) verifyMarkedTx(tx *pb.Transaction) error {
 		return err
 	}
 	ok, err := xcc.VerifyECDSA(ecdsaKey, bytesign, digestHash)
-	if err != nil || !ok {
+	if err != nil {
 		t.log.Warn("verifyMarkedTx validateUpdateBlockChainData verifySignatures failed")
 		return err
+	}
+	if !ok {
+		// a well-formed signature that does not verify comes back as (false, nil)
+		t.log.Warn("verifyMarkedTx validateUpdateBlockChainData verifySignatures failed")
+		return errors.New("marked tx signature is invalid")
 	}
 	return nil
 }
